@@ -58,7 +58,7 @@ def extra_checks(ctx, exes):
         ctx.violations.append({"kind": "broken-proof", "case": "Gen_PtrPrograms: " + name, "impl": "", "model": out, "spec": "", "class": "m3",
                                "what": "the program translated from the AST of this instantiated pointer operator is no longer provably equal to Ptr.ptr_arith / ptr_index_gen for all inputs"})
 DRIVERS = drivers("ARITH", ["arith", "stride"]) + drivers("ARITH", ["arith"], CFG_F)
-PTEES = {"char": (1, 1), "short": (2, 2), "int": (4, 4), "long": (4, 4), "ulong": (4, 4), "llong": (8, 8), "double": (8, 8),
+PTEES = {"char": (1, 1), "short": (2, 2), "int": (4, 4), "long": (4, 4), "ulong": (4, 4), "llong": (8, 8), "cllong": (8, 8), "clong": (4, 4), "double": (8, 8),
          "ptr": (4, 2), "arr4": (16, 16), "larr3": (12, 12), "llarr3": (24, 24), "ullarr2x2": (32, 32), "sarr5": (10, 10), "ps": (32, 32)}   # guest stride under (cfg32, cfg16)
 
 
@@ -87,7 +87,7 @@ def gen_cases(tier, rng):
                     nvals.add(rng.randrange(-(1 << 20), 1 << 20))
                     nvals.add(rng.randrange(-(1 << 63), 1 << 64))
                 forms = ["add", "sub", "index", "radd"]
-                kinds = IDX_KINDS if tier == "thorough" or pt in ("int", "ps", "long", "char") else ["int", "ulong", "llong", "schar", "ushort"]
+                kinds = IDX_KINDS if tier == "thorough" or pt in ("int", "ps", "long", "char", "cllong") else ["int", "ulong", "llong", "schar", "ushort"]
                 for form in forms:
                     for k in kinds:
                         for n in sorted(nvals):
